@@ -241,7 +241,9 @@ func renderStmt(st Step) string {
 		return fmt.Sprintf("INSERT INTO %s (a, b) VALUES %s", st.T, strings.Join(rows, ", "))
 	case "update":
 		set := fmt.Sprintf("a = %d, b = '%s'", st.V, bOf(st.V))
-		if st.V == -2 {
+		if st.V == -6 {
+			set = fmt.Sprintf("b = '%s'", strings.Repeat("n", 392)) // 398 bytes with a NULL INT column, 402 with a value
+		} else if st.V == -2 {
 			set = fmt.Sprintf("b = '%s'", strings.Repeat("z", 450)) // the row would exceed the 400 byte limit
 		} else if st.V < 0 {
 			set = "a = 'x'"
@@ -1393,6 +1395,7 @@ func randomRun(rq RandReq) (res Result) {
 		}
 		return 10 + rng.Intn(20+inserted/3)
 	}
+	var queue []Step
 	for i := 0; i < rq.N; i++ {
 		t := tables[rng.Intn(len(tables))]
 		if rq.Bias == "grow" && rng.Intn(10) < 8 {
@@ -1405,18 +1408,59 @@ func randomRun(rq RandReq) (res Result) {
 		if rq.Bias == "grow" {
 			tIns, tUpd, tDel = 76, 83, 88 // mostly inserts, but every kind of statement still occurs
 		}
+		if rq.LongBad > 0 && i == rq.N/2 && len(tables) == 2 {
+			// a table created late: every row of it is younger than every row of the other tables at that moment. Its first
+			// row has a NULL INT column, the others do not; a statement on an old table, then the UPDATE that only the later
+			// rows of the young table refuse
+			queue = append(queue, Step{A: "create", T: "t3"}, Step{A: "insert", T: "t3", Rows: []int{9}}, Step{A: "insert", T: "t3", Rows: []int{1 + rng.Intn(5), 1 + rng.Intn(5)}},
+				Step{A: "update", T: tables[rng.Intn(2)], W: 0, V: 1 + rng.Intn(5)}, Step{A: "update", T: "t3", W: 0, V: -6})
+			tables = append(tables, "t3")
+			res.Stats["mixed-updates"]++
+		}
+		if len(queue) > 0 {
+			st, queue = queue[0], queue[1:]
+			t = st.T
+			evm = map[string]interface{}{"t": t}
+			switch st.A {
+			case "insert":
+				evm["rows"] = st.Rows
+			case "update":
+				evm["w"], evm["v"] = st.W, st.V
+			}
+			p = -1
+		}
 		switch {
+		case p < 0:
 		case p < tIns:
 			st.A = "insert"
 			n := 1 + rng.Intn(maxRows)
 			for j := 0; j < n; j++ {
 				st.Rows = append(st.Rows, val())
 			}
+			if rq.LongBad > 0 && rng.Intn(5) == 0 {
+				st.Rows = []int{9} // a row whose INT column is NULL
+			}
 			evm["rows"] = st.Rows
 		case p < tUpd:
 			st.A, st.W, st.V = "update", val(), val()
 			if rq.Cache == 0 && rng.Intn(6) == 0 {
 				st.W = 0 // no WHERE
+			}
+			if rq.LongBad > 0 && rng.Intn(3) == 0 {
+				// an UPDATE whose new text fits the rows with a NULL INT column and is two bytes too long for the others:
+				// when rows of the first kind come first, the refusal arrives late - still nothing may change
+				if obs, probs := w.observe(); len(probs) == 0 {
+					rows := vals(obs[t])
+					for k, v := range rows {
+						if v != 9 {
+							if k > 0 {
+								st.W, st.V = 0, -6
+								res.Stats["mixed-updates"]++
+							}
+							break
+						}
+					}
+				}
 			}
 			evm["w"], evm["v"] = st.W, st.V
 		case p < tDel:
@@ -1475,6 +1519,9 @@ func randomRun(rq RandReq) (res Result) {
 		}
 		if panicked {
 			return fail(fmt.Sprintf("statement %q panicked: %v", renderStmt(st), e))
+		}
+		if st.A == "update" && st.V == -6 && e == nil {
+			return fail(fmt.Sprintf("statement %q succeeded although the new row is over the size limit for rows with a value in the INT column", renderStmt(st)))
 		}
 		if rq.Cache > 0 {
 			if errors.Is(e, storage.ErrLRUCacheFull) {
